@@ -279,9 +279,19 @@ def _np_P_field(X):
     return np.stack([Y[2], Y[0], Y[1]], axis=0)
 
 
+_REPLAY_CACHE = {}
+
+
 def replay(key, obligation, witness):
     """real update_E/update_H on a concrete scene and on its axis-permuted image (random data on the
-    witness' shape), compared after permuting back"""
+    witness' shape), compared after permuting back; one evaluation per configuration (cached)"""
+    ck = key
+    if ck not in _REPLAY_CACHE:
+        _REPLAY_CACHE[ck] = _replay(key, obligation, witness)
+    return _REPLAY_CACHE[ck]
+
+
+def _replay(key, obligation, witness):
     import jax
     import jax.numpy as jnp
     import numpy as np
@@ -294,12 +304,12 @@ def replay(key, obligation, witness):
     spec = K.parse_spec((witness or {}).get("notes"))
     if not spec:
         return False, "no configuration recorded"
-    if any("pml" in p for p in spec["bnd"]) or any(s[0] != "plane" for s in spec.get("sources", [])) or spec["eps"] == 9 or spec["mu"] == 9:
-        return False, "replay implemented for plane-source scenes without absorbing layers / full tensors only"
+    if any("pml" in p for p in spec["bnd"]) or any(s[0] != "plane" for s in spec.get("sources", [])):
+        return False, "replay implemented for plane-source scenes without absorbing layers only"
     sc = dict((witness or {}).get("scalars", {}))
     details = []
-    for attempt in range(3):
-        shape = tuple(int(sc.get(f"N{a}", 3)) if isinstance(sc.get(f"N{a}"), int) and attempt == 0 else 3 + attempt for a in "xyz")
+    for attempt in range(2):
+        shape = tuple(min(6, max(1, int(sc.get(f"N{a}", 3)))) if isinstance(sc.get(f"N{a}"), int) and attempt == 0 else 3 + attempt for a in "xyz")  # solver models may pick huge extents
         if spec.get("thin") is not None:
             shape = tuple(1 if a == spec["thin"] else max(2, n) for a, n in enumerate(shape))
         shapeP = P_shape(shape)
@@ -313,6 +323,12 @@ def replay(key, obligation, witness):
                 return X
             X = np.asarray(X)
             Y = np.transpose(X, (0, 3, 1, 2))
+            if X.shape[0] == 9:  # tensor entry (r, c) -> ((r+1)%3, (c+1)%3)
+                Z = np.zeros_like(Y)
+                for r in range(3):
+                    for cc in range(3):
+                        Z[3 * ((r + 1) % 3) + (cc + 1) % 3] = Y[3 * r + cc]
+                return jnp.asarray(Z)
             return jnp.asarray(Y if X.shape[0] == 1 else np.stack([Y[2], Y[0], Y[1]], axis=0))
 
         arraysP = ArrayContainer(
